@@ -92,6 +92,18 @@ def check(run, repo, world):
                                else ("in", j))]
                 inside_in = [j for j in range(lo, hi + 1)
                              if f2.lanes[j] == ("in", j)]
+                # the same write into a fully symbolic frame: the selector
+                # bit (16) of a 24-bit frame is not the address's to set
+                if fam != "gear":
+                    fsym = _new_frame(s2, width)
+                    for (v3, s3) in _call_method(I, s2, obj, "add_to_frame",
+                                                 [fsym]):
+                        if isinstance(v3, Raise):
+                            continue
+                        f3 = s3.d(fsym)
+                        outside += [j for j in range(width) if not (
+                            lo <= j <= hi) and f3.lanes[j] != ("in", j)
+                            and j not in outside]
                 run.ob("R-ADDR-LOCAL", ADDR + kind, not outside and
                        not inside_in,
                        "add_to_frame changes bits %s outside its field "
